@@ -1,14 +1,39 @@
-"""C26 (bounded part; proved part to be added)."""
+"""C26 - values extracted from models are values the expression takes.  Mixed: the pure bit/integer extraction code proved against
+contracts of the Z3 C API; extraction through the real C API on boundary values bounded."""
+from vf.common import task
 from vf.props import _rtc
 
-LEVEL = "exploration"
-LEVEL_TEXT = ("Bounded stand-in only in this round (never counted as proved); see rule.")
-TECHNIQUE = "bounded run-time contracts (stand-in)"
+LEVEL = "other"
+LEVEL_TEXT = ("Mixed.  PROVED (Z3 C API by contract, values symbolic): the Concat-of-numerals branch of BackendZ3._abstract_to_primitive "
+              "re-assembles the value of the concatenation (pieces of 1-4 bits, plain or negated numerals); _abstract_fp_encoded_val returns "
+              "the IEEE-754 bit pattern for every numeral kind (finite, +-0, +-inf, NaN) of FLOAT and DOUBLE for all sign / exponent / "
+              "significand fields; _abstract_bv_val returns the numeral's value (all 64-bit values symbolically, the decimal-string path on "
+              "boundary values up to 3^200); ModelCache._leaf_op / _leaf_op_existonly substitute exactly the model's value; "
+              "int_to_str_unlimited / str_to_int_unlimited are inverse to str()/int() for every integer around the chunk boundaries; "
+              "ModelCacheMixin.combine only caches models that satisfy the combined constraints (shared with C15).  BOUNDED (never counted "
+              "as proved): constraint sets pinning expressions of every sort to boundary values, solved by the real solver classes, every "
+              "returned primitive re-asserted in an independent Z3 query (floats by bit pattern, NaN as isNaN, strings by code points).")
+EXPLANATION = ("proved: 8 extraction obligations with the Z3 C API answered by contract; bounded: boundary values of every sort through "
+               "eval/batch_eval/min/max of every solver class with re-assertion in an independent z3 query")
+TECHNIQUE = "contract-based deductive verification of the primitive-extraction code with the Z3 C API by contract (pyvc, z3) + bounded run-time contracts with an independent re-assertion oracle"
 RULE = _rtc.RTC_RULE
-FUNCTIONS = []
-TRUSTED = _rtc.RTC_TRUSTED
-ASSUMPTIONS = ["bounded; see rule"]
+M = "vf.contracts.z3prim"
+FUNCTIONS = ["BackendZ3._abstract_to_primitive (Concat branch, dispatch)", "BackendZ3._abstract_bv_val", "BackendZ3._abstract_fp_encoded_val",
+             "str_to_int_unlimited", "int_to_str_unlimited", "ModelCache._leaf_op", "ModelCache._leaf_op_existonly", "ModelCacheMixin.combine"]
+TRUSTED = _rtc.RTC_TRUSTED + ["ASSUMED contracts of the Z3 C API (vf/contracts/z3prim.py:Z3Stub): Z3_get_numeral_uint64 / _string, Z3_get_app_*, Z3_get_bv_sort_size, "
+                              "Z3_fpa_get_ebits/sbits, Z3_fpa_get_numeral_sign / _significand_uint64 (trailing bits) / _exponent_string(biased) / "
+                              "_significand_string (decimal fraction)", "int(str(n)) == n for the decimal strings Z3 prints"]
+ASSUMPTIONS = ["BackendZ3._abstract_fp_val (float(significand string) * 2**exponent) is covered by the bounded part only: float parsing and IEEE products are outside the proxies",
+               "_generic_model / eval through the real C API: bounded part only", "Concat pieces of 1-4 bits, 2-3 pieces"]
 
 
 def tasks(tier, seed=0):
-    return _rtc.rtc_tasks("C26", tier, seed)
+    R = "vf.contracts.z3prim:replay"
+    out = [task(M, "ob_concat", "z3prim.concat-of-numerals/value", ["C26"], replay=R, tier=tier),
+           task(M, "ob_bv_val", "z3prim.bv-val/value", ["C26"], tier=tier),
+           task(M, "ob_int_str", "z3prim.int<->str/round-trip", ["C26"], tier=tier),
+           task(M, "ob_leaf_op", "modelcache.leaf-op/model-value", ["C26", "C11"], tier=tier),
+           task("vf.contracts.mergesplit", "ob_mc_combine", "mixin.ModelCacheMixin.combine/cached-models-valid", ["C15", "C11", "C26"], tier=tier)]
+    for s in ("FLOAT", "DOUBLE", "TINY"):
+        out.append(task(M, "ob_fp_encoded", f"z3prim.fp-encoded/{s}/bit-pattern", ["C26"], replay=R, sort_name=s, tier=tier))
+    return out + _rtc.rtc_tasks("C26", tier, seed)
